@@ -251,7 +251,7 @@ func (m *monC11) OnStep(r *Runner, st *Step) {
 		for i := 0; i < 100; i++ {
 			req := &banktypes.QueryTotalSupplyRequest{}
 			lim = pat[i%len(pat)]
-			if lim > 0 {
+			if lim > 0 || key != nil {
 				req.Pagination = &query.PageRequest{Limit: lim, Key: key}
 			}
 			ts, err := w.App.BankKeeper.TotalSupply(ctx, req)
@@ -265,7 +265,7 @@ func (m *monC11) OnStep(r *Runner, st *Step) {
 					seen++
 				}
 			}
-			if lim == 0 || ts.Pagination == nil || len(ts.Pagination.NextKey) == 0 {
+			if ts.Pagination == nil || len(ts.Pagination.NextKey) == 0 {
 				break
 			}
 			key = ts.Pagination.NextKey
